@@ -1,14 +1,8 @@
 #!/bin/bash
-# runs every seeded change against the check of the property it breaks; writes seeded/MATRIX.txt
+# runs every seeded change against the check of the property it breaks (scratch worktrees, 4 at a time);
+# writes seeded/MATRIX.txt.  /repo is not touched.
 cd /verif
-claimed=$(python3 -c "import json; print(' '.join(c['property_id'] for c in json.load(open('MANIFEST.json'))['checks']))")
-: > seeded/MATRIX.txt
-for d in seeded/*/; do
-  name=$(basename $d); prop=${name%%-*}
-  if ! echo " $claimed " | grep -q " $prop "; then echo "$name $prop not-claimed" | tee -a seeded/MATRIX.txt; continue; fi
-  (cd /repo && git apply /verif/$d/patch.diff) || { echo "$name patch-does-not-apply" | tee -a seeded/MATRIX.txt; continue; }
-  out=$(./check $prop --tier quick 2>&1); rc=$?
-  git -C /repo checkout -- .
-  line=$(echo "$out" | grep -E "^VIOLATION|^UNDECIDED|CHECKER" | head -1 | cut -c1-140)
-  echo "$name $prop exit=$rc $line" | tee -a seeded/MATRIX.txt
-done
+: > /tmp/matrix_raw.txt
+ls seeded | grep -E '^C[0-9]+-a[0-9]+$' | xargs -P 4 -I{} sh -c 'n={}; ./tools_seedwt.sh $n ${n%%-*} >> /tmp/matrix_raw.txt 2>&1'
+sort /tmp/matrix_raw.txt > seeded/MATRIX.txt
+cat seeded/MATRIX.txt | cut -c1-200
